@@ -18,6 +18,12 @@
   atom by atom, and for non-collinear molecules with the applied rotation/shift; the result is a proper rotation;
   reported RMSD == applied RMSD; optimality against random proper rotations and against
   sum|P|^2 + sum|Q|^2 - 2 lambda_max of its own F; mirror images of chiral molecules are matched iff requested.
+  Kind "history" (retain, then judge): 2-4 moved / slightly distorted copies of one reference (2-12 atoms, 30% far from the
+  origin) are aligned one after the other through kabsch_align (weight omitted / None / all ones), kabsch_quaternion, B787
+  (fixed map; also with labels + run_mirror) and Molecule.align, with the geometries handed over C-ordered, Fortran-ordered,
+  as strided windows or read-only; every result is kept exactly as returned (the caller's buffers overwritten in half of the
+  cases) and only after the whole sequence checked: proper rotation, reported = applied RMSD, optimal vs an SVD Kabsch, and
+  for rigid frames recovery atom by atom and of the applied rotation/shift.
 """
 import itertools
 import math
@@ -237,14 +243,28 @@ CTOL = cq(Fraction(1, 10 ** 8))
 # model cases
 
 
+def run_eval(fn, kind, inp, none=None):
+    """evaluate a model-case builder on its recorded input; an exception of the implementation becomes an `error` case that
+    still carries the whole input (so that replay() can run the same evaluation again from the record alone)"""
+    try:
+        return fn(inp)
+    except Exception as e:       # the implementation raised where the builders expect none
+        return dict(inp, kind=kind, error="%s: %s" % (type(e).__name__, e)), none
+
+
 def case_kquat(rng):
-    from qcelemental.molutil.align import kabsch_quaternion
     n = rng.choice([1, 2, 3, 4, 5, 8, 13, 30])
     P = np.array([[rng.randint(-40, 40) / 8 for _ in range(3)] for _ in range(n)])
     if rng.random() < 0.5:
         Q = P @ rational_rotation(rng) + np.array([rng.randint(-8, 8) / 8 for _ in range(3)])
     else:
         Q = np.array([[rng.randint(-40, 40) / 8 for _ in range(3)] for _ in range(n)])
+    return run_eval(eval_kquat, "kquat", {"P": P.tolist(), "Q": Q.tolist()})
+
+
+def eval_kquat(inp):
+    from qcelemental.molutil.align import kabsch_quaternion
+    P, Q = np.array(inp["P"], dtype=float), np.array(inp["Q"], dtype=float)
     with EighTap() as tap:
         U = kabsch_quaternion(P.T.copy(), Q.T.copy())
     if len(tap.calls) != 1:
@@ -272,8 +292,13 @@ def pair_for_align(rng):
 
 
 def case_kalign(rng):
-    from qcelemental.molutil import kabsch_align
     R, C = pair_for_align(rng)
+    return run_eval(eval_kalign, "kalign", {"R": R.tolist(), "C": C.tolist()})
+
+
+def eval_kalign(inp):
+    from qcelemental.molutil import kabsch_align
+    R, C = np.array(inp["R"], dtype=float), np.array(inp["C"], dtype=float)
     Rin, Cin = R.copy(), C.copy()
     with EighTap() as tap:
         rmsd, RR, TT = kabsch_align(Rin, Cin, weight=None) if len(R) % 2 else kabsch_align(Rin, Cin)
@@ -288,12 +313,17 @@ def case_kalign(rng):
 
 
 def case_kapplied(rng):
+    R, C = pair_for_align(rng)
+    order = list(range(len(R)))
+    rng.shuffle(order)
+    return run_eval(eval_kapplied, "kapplied", {"R": R.tolist(), "C": C.tolist(), "order": order})
+
+
+def eval_kapplied(inp):
     from qcelemental.molutil import kabsch_align
     from qcelemental.models import AlignmentMill
-    R, C = pair_for_align(rng)
+    R, C, order = np.array(inp["R"], dtype=float), np.array(inp["C"], dtype=float), list(inp["order"])
     n = len(R)
-    order = list(range(n))
-    rng.shuffle(order)
     _, RR, TT = kabsch_align(R.copy(), C[order, :].copy(), weight=None)
     sol = AlignmentMill(shift=TT, rotation=RR, atommap=np.array(order), mirror=False)
     tgeom = sol.align_coordinates(C, reverse=False)
@@ -389,8 +419,16 @@ def case_kselect(rng):
         C = (base @ rational_rotation(rng) + np.array([rng.randint(-40, 40) / 8 for _ in range(3)]))[perm, :]
         cuniq = runiq[perm]
         mols_align = True
-    case = {"kind": "kselect", "R": R.tolist(), "C": C.tolist(), "runiq": list(map(str, runiq)), "cuniq": list(map(str, cuniq)),
-            "run_mirror": run_mirror, "mols_align": mols_align, "run_to_completion": rtc}
+    return eval_kselect({"kind": "kselect", "R": R.tolist(), "C": C.tolist(), "runiq": list(map(str, runiq)), "cuniq": list(map(str, cuniq)),
+                         "run_mirror": run_mirror, "mols_align": mols_align, "run_to_completion": rtc})
+
+
+def eval_kselect(inp):
+    """the real driver on the recorded pair; everything is recomputed from `inp` (used by replay() as well)"""
+    case = {k: inp[k] for k in ("kind", "R", "C", "runiq", "cuniq", "run_mirror", "mols_align", "run_to_completion")}
+    R, C = np.array(case["R"], dtype=float), np.array(case["C"], dtype=float)
+    runiq, cuniq = np.array(case["runiq"]), np.array(case["cuniq"])
+    run_mirror, mols_align, rtc = case["run_mirror"], case["mols_align"], case["run_to_completion"]
     try:
         with MirrorRedirect() as red:
             sup = False
@@ -453,14 +491,23 @@ def case_kweighted(rng):
     else:
         sw = [rng.choice([0.25, 0.5, 1.0, 1.0, 1.5, 2.0]) for _ in range(n)]
         weight = np.array([x * x for x in sw]) if rng.random() < 0.5 else [x * x for x in sw]
+    return run_eval(eval_kweighted, "kweighted", {"R": R.tolist(), "C": C.tolist(), "sw": sw,
+                                                  "weight_as": None if weight is None else ("array" if isinstance(weight, np.ndarray) else "list")})
+
+
+def eval_kweighted(inp):
+    from qcelemental.molutil import kabsch_align
+    R, C, sw = np.array(inp["R"], dtype=float), np.array(inp["C"], dtype=float), list(inp["sw"])
+    n = len(R)
+    weight = None if inp["weight_as"] is None else (np.array([x * x for x in sw]) if inp["weight_as"] == "array" else [x * x for x in sw])
     with EighTap() as tap:
         rmsd, RR, TT = kabsch_align(R.copy(), C.copy(), weight=weight)
     if len(tap.calls) > 1:
-        return {"kind": "kweighted", "R": R.tolist(), "C": C.tolist(), "error": "eigh called more than once"}, None
+        return dict(inp, kind="kweighted", error="eigh called more than once"), None
     q = tap.calls[0][2][:, -1] if tap.calls else np.array([1.0, 0, 0, 0])
     sumw = sum(x * x for x in sw)
     term = "(WAlign %s %s %s %s %s %s %s %s %s %s)" % (CTOL, cpts(R), cpts(C), clist(sw, fq), fq(sumw), cvec(q), fq(b2a()), fq(rmsd), cmat3(RR), cvec(TT))
-    return {"kind": "kweighted", "R": R.tolist(), "C": C.tolist(), "sw": sw, "weighted": weight is not None, "rmsd": float(rmsd)}, term
+    return dict(inp, kind="kweighted", weighted=weight is not None, rmsd=float(rmsd)), term
 
 
 def case_kperm(rng):
@@ -683,7 +730,29 @@ def apply_recipe(x, shift, rot, perm, mirror):
 
 
 def gen_oracle_case(rng, kind=None):
-    kind = kind or rng.choice(["rigid_fixed", "rigid_fixed", "rigid_perm", "unrelated", "mirror", "molecule", "near_copy", "options", "nearsym"])
+    kind = kind or rng.choice(["rigid_fixed", "rigid_fixed", "rigid_perm", "unrelated", "mirror", "molecule", "near_copy", "options", "nearsym",
+                               "history"])
+    if kind == "history":
+        # a short "trajectory": 2-4 moved (some slightly distorted) copies of one reference are aligned one after the other, each
+        # through one of the public entry points; every result is KEPT as returned and judged only after the whole sequence
+        n = rng.randint(2, 12)
+        R = gen_geometry(rng, n, rng.choice(["generic", "generic", "generic", "planar", "collinear"]))
+        if rng.random() < 0.3:
+            R = R + np.array([rng.choice([-1, 1]) * rng.randint(100, 2000) for _ in range(3)], dtype=float)      # far from the origin
+        frames = []
+        for _ in range(rng.randint(2, 4)):
+            k = rng.random()
+            rot = np.eye(3) if k < 0.1 else (rational_rotation(rng, big=True) if k < 0.6 else random_rotation(rng))
+            shift = [0.0, 0.0, 0.0] if (k < 0.1 and rng.random() < 0.5) else [rng.randint(-80, 80) / 8 for _ in range(3)]
+            entry = rng.choice(HISTORY_ENTRIES)
+            distort = [rng.randrange(n), rng.randrange(3), rng.choice([0.0625, 0.125, 0.25, 0.375])] if rng.random() < 0.3 else None
+            if entry == "B787-mirror" and (n > 6 or distort):
+                entry = "B787"            # (the mirror pre-check enumerates atom orderings; a distorted frame may legitimately prefer the mirror recipe)
+            frames.append({"entry": entry, "rot": np.asarray(rot).tolist(), "shift": shift, "distort": distort,
+                           "layout": rng.choice(["C", "C", "F", "view", "readonly"]),
+                           "weight": rng.choice(["omitted", "none", "ones_list", "ones_array"]), "mols_align": rng.random() < 0.5})
+        return {"kind": kind, "R": R.tolist(), "symbols": [rng.choice(["H", "C", "N", "O", "F"]) for _ in range(n)], "frames": frames,
+                "reuse_buffers": rng.random() < 0.5}
     if kind == "near_copy":
         # a copy moved by a tiny rigid motion or stretched by a tiny factor: around the allclose short-cut of kabsch_align
         n = rng.randint(2, 12)
@@ -772,9 +841,138 @@ def check_solution(R, C, runiq, cuniq, rmsd, sol, what):
     return None
 
 
+HISTORY_ENTRIES = ["kabsch_align", "kabsch_align", "kabsch_quaternion", "B787", "B787-mirror", "Molecule.align"]
+LATER = " [result kept while later alignments ran, then checked]"
+
+
+def lay_out(a, layout):
+    """the same numbers in another legal memory layout"""
+    a = np.asarray(a, dtype=float)
+    if layout == "F":
+        return np.asfortranarray(a.copy())
+    if layout == "view":
+        big = np.full((2 * a.shape[0], a.shape[1] + 2), 3.25)
+        big[::2, 1:-1] = a
+        return big[::2, 1:-1]
+    out = a.copy()
+    if layout == "readonly":
+        out.flags.writeable = False
+    return out
+
+
+def history_frame_geometry(R, fr):
+    D = R.copy()
+    if fr.get("distort"):
+        i, j, amount = fr["distort"]
+        D[int(i), int(j)] += amount
+    return D @ np.array(fr["rot"], dtype=float) + np.array(fr["shift"], dtype=float)
+
+
+def history_oracle(case):
+    """align every frame, keep what was returned (no copies), re-use the caller's buffers if the case says so; judge afterwards"""
+    from qcelemental.molutil import B787, kabsch_align
+    from qcelemental.molutil.align import kabsch_quaternion
+    from qcelemental.models import Molecule
+    R = np.array(case["R"], dtype=float)
+    n = len(R)
+    kept = []
+    refmol = None
+    for t, fr in enumerate(case["frames"]):
+        C = history_frame_geometry(R, fr)
+        entry = fr["entry"]
+        Rin, Cin = lay_out(R, fr["layout"]), lay_out(C, fr["layout"])
+        if entry == "kabsch_align":
+            # (all-one weights are the unweighted problem: same centroids, same F, RMSD divided by sqrt(sum w) = sqrt(n))
+            wt = fr["weight"]
+            res = kabsch_align(Rin, Cin) if wt == "omitted" else kabsch_align(
+                Rin, Cin, weight={"none": None, "ones_list": [1.0] * n, "ones_array": np.ones(n)}[wt])
+        elif entry == "kabsch_quaternion":
+            Rc, Cc = lay_out(R - R.mean(axis=0), fr["layout"]), lay_out(C - C.mean(axis=0), fr["layout"])
+            res = kabsch_quaternion(Cc.T, Rc.T)
+            if case.get("reuse_buffers") and fr["layout"] != "readonly":
+                Rc[...] = -5.5
+                Cc[...] = 7.75
+        elif entry == "B787":
+            res = B787(Cin, Rin, None, None, verbose=0, atoms_map=True, mols_align=bool(fr["mols_align"] and not fr.get("distort")))
+        elif entry == "B787-mirror":
+            # other options through the same driver: labels given, mirror matching requested (<= 6 atoms, rigid frames only)
+            lab = np.array(case["symbols"])
+            with MirrorRedirect() as red:
+                res = red.orig(Cin, Rin, lab, lab, verbose=0, atoms_map=True, run_mirror=True, mols_align=bool(fr["mols_align"]))
+        elif entry == "Molecule.align":
+            if refmol is None:
+                refmol = Molecule(symbols=case["symbols"], geometry=R.reshape(-1), fix_com=True, fix_orientation=True)
+            cmol = Molecule(symbols=case["symbols"], geometry=C.reshape(-1), fix_com=True, fix_orientation=True)
+            res = cmol.align(refmol, atoms_map=True, verbose=0)
+        else:
+            raise AssertionError(entry)
+        if not (np.array_equal(Rin, R) and np.array_equal(Cin, C)):
+            return "frame %d (%s): the geometries given to the aligner were modified" % (t, entry), {}
+        if case.get("reuse_buffers") and fr["layout"] != "readonly":
+            Rin[...] = -5.5          # the caller re-uses its buffers
+            Cin[...] = 7.75
+        kept.append((t, fr, entry, C, res))
+    # ---- judge, oldest first
+    for t, fr, entry, C, res in kept:
+        what = "frame %d of %d (%s)" % (t, len(kept), entry)
+        rmsd = None
+        if entry == "kabsch_align":
+            rmsd, RR, TT = res
+        elif entry == "kabsch_quaternion":
+            RR = res
+            TT = C.mean(axis=0) - np.asarray(RR).dot(R.mean(axis=0)) if np.asarray(RR).shape == (3, 3) else None
+        elif entry in ("B787", "B787-mirror"):
+            rmsd, sol = res
+            RR, TT = sol.rotation, sol.shift
+            if sol.mirror or list(map(int, sol.atommap)) != list(range(n)):
+                return what + ": fixed atom map, no mirror requested, but the recipe returned has another map or a mirror", {}
+        else:
+            amol, data = res
+            rmsd, sol = data["rmsd"], data["mill"]
+            RR, TT = sol.rotation, sol.shift
+        RR, TT = np.asarray(RR, dtype=float), np.asarray(TT, dtype=float)
+        if RR.shape != (3, 3) or TT.shape != (3,) or np.max(np.abs(RR.T @ RR - np.eye(3))) > 1e-9 or abs(np.linalg.det(RR) - 1.0) > 1e-9:
+            return what + ": returned rotation is not proper orthogonal" + LATER, {"rotation": RR.tolist()}
+        aligned = (C - TT) @ RR
+        applied = float(np.linalg.norm(aligned - R) * b2a() / np.sqrt(n))
+        # documented short-cut of kabsch_align (C12_kabsch_align_shortcut): |r - c| <= 1e-8 + 1e-5 |c| in every coordinate
+        short = bool(np.all(np.abs(R - C) <= 1e-8 + 1e-5 * np.abs(C)))
+        bound = float(np.linalg.norm(1e-8 + 1e-5 * np.abs(C)) * b2a() / np.sqrt(n)) if short else 0.0
+        if rmsd is not None and abs(applied - float(rmsd)) > bound + 1e-7:
+            return what + ": reported RMSD differs from the RMSD obtained by applying the returned rotation/shift" + LATER, \
+                {"reported": float(rmsd), "applied": applied}
+        Rc, Cc = R - R.mean(axis=0), C - C.mean(axis=0)
+        U_, S_, Vt_ = np.linalg.svd(Cc.T @ Rc)
+        d = np.sign(np.linalg.det(U_ @ Vt_))
+        best = math.sqrt(max(0.0, float((Rc ** 2).sum() + (Cc ** 2).sum() - 2 * (S_[0] + S_[1] + d * S_[2])))) * b2a() / math.sqrt(n)
+        if applied > best + bound + 1e-7:
+            return what + ": the returned rotation/shift are worse than the optimal proper rotation" + LATER, {"applied": applied, "optimal": best}
+        if not fr.get("distort") and not short:
+            if np.max(np.abs(aligned - R)) > 1e-6:
+                return what + ": rigid copy: the returned transformation does not map it back onto the reference atom by atom" + LATER, \
+                    {"max_dev": float(np.max(np.abs(aligned - R)))}
+            if not is_collinear(R):
+                if np.max(np.abs(RR.T - np.array(fr["rot"]))) > 1e-6:
+                    return what + ": non-collinear rigid copy: returned rotation is not (the transpose of) the applied one" + LATER, {"returned": RR.tolist()}
+                # (Molecule stores geometries rounded to 1e-8: far from the origin that noise, through the rotation it implies
+                #  - at most ~1e-8 sqrt(n) / sigma_2 of the centred reference -, moves the shift by that angle times |centroid|)
+                tol_shift = 1e-6
+                if entry == "Molecule.align":
+                    sig = np.linalg.svd(Rc, compute_uv=False)
+                    tol_shift += 5e-8 * math.sqrt(n) * float(np.linalg.norm(R.mean(axis=0))) / max(float(sig[1]), 1e-3)
+                if np.max(np.abs(TT - np.array(fr["shift"]))) > tol_shift:
+                    return what + ": non-collinear rigid copy: returned shift is not the applied one" + LATER, \
+                        {"returned": TT.tolist(), "tolerance": tol_shift}
+            if entry == "Molecule.align" and (np.max(np.abs(np.asarray(amol.geometry) - R)) > 1e-6 or list(amol.symbols) != list(case["symbols"])):
+                return what + ": aligned molecule does not coincide with the reference atom by atom" + LATER, {}
+    return None
+
+
 def oracle(case):
     from qcelemental.molutil import B787, kabsch_align
     kind = case["kind"]
+    if kind == "history":
+        return history_oracle(case)
     R = np.array(case["R"], dtype=float)
     n = len(R)
     if kind in ("rigid_fixed", "rigid_perm"):
@@ -1005,7 +1203,8 @@ def correspond(ctx):
     rng = ctx.rng
     corr.rule = ("model cases: kabsch_quaternion / kabsch_align / applied residual / B787 selection on generated geometries "
                  "(generic, planar, collinear, symmetric; 1-30 points; rational rotations, shifts, permutations); oracle cases: rigid "
-                 "copies (fixed map 2-30 atoms, permutative <= 7 atoms), unrelated pairs, chiral molecules and mirror images; a case "
+                 "copies (fixed map 2-30 atoms, permutative <= 7 atoms), unrelated pairs, chiral molecules and mirror images, histories of 2-4 "
+                 "alignments judged after the sequence; a case "
                  "is non-trivial unless the allclose short-cut of kabsch_align fired; distinct = distinct inputs")
     n_model = 9000 if ctx.thorough else 800
     n_oracle = 24000 if ctx.thorough else 1200
@@ -1180,7 +1379,7 @@ def replay(ctx, rp):
     case = rp.get("case")
     if not isinstance(case, dict):
         return {"note": "this replay records broken proof obligations without a failing input; re-run ./check C12", "fails": True}
-    if case.get("kind") in ("rigid_fixed", "rigid_perm", "unrelated", "mirror", "molecule", "near_copy", "options", "nearsym"):
+    if case.get("kind") in ("rigid_fixed", "rigid_perm", "unrelated", "mirror", "molecule", "near_copy", "options", "nearsym", "history"):
         bad = run_oracle(case)
         return {"case": case, "oracle": bad[0] if bad else None, "observed": bad[1] if bad else None, "fails": bool(bad)}
     if case.get("kind") == "krandrot":
@@ -1280,7 +1479,9 @@ LEVEL_TEXT = (
     "and random_rotation_matrix against the translated matrix algebra; the property itself is evaluated on the implementation (rigid copies 2-30 atoms x rotations x shifts x "
     "permutations, optimality vs random rotations, vs lambda_max and vs an SVD Kabsch, chiral molecules vs mirror images with "
     "run_mirror on/off, the option product of B787, near-symmetric molecules around the 1e-3 convergence threshold, near copies "
-    "around the allclose short-cut, Molecule.align/scramble).")
+    "around the allclose short-cut, Molecule.align/scramble; and sequences of 2-4 alignments of moved/distorted copies through "
+    "kabsch_align / kabsch_quaternion / B787 / Molecule.align - C-, Fortran-ordered, strided or read-only arguments, 30% far from "
+    "the origin - whose results are all RETAINED as returned and judged only after the sequence).")
 LEVEL_NOTE = (
     "Clause map: proper rotation -> C12_U_proper, C12_kabsch_align_rotation_always_proper; reported = applied RMSD -> "
     "C12_reported_rmsd_is_applied_rmsd, C12_kabsch_align_shortcut, C12_selected_solution_attains_reported_rmsd; optimal among all "
